@@ -23,6 +23,10 @@ TYPES = {"str": "str", "np.str_": "str", "int": "int", "np.int32": "int", "np.in
 BLANK = Opaque("blank-value", ())
 
 
+class Crash(Exception):
+    """the function under evaluation certainly raises for the symbolic card (every test on the path was decided)"""
+
+
 def _type_classes(v):
     out = set()
     for n in walk_value(v):
@@ -101,7 +105,11 @@ def run_writer(ctx, q, name, shape, formatter=None):
             raise AnchorError(f"{q}: formatter parameter")
         env[params[2]] = Opaque("name:" + formatter, ())
     eng = Engine(ctx, BULK, fn, cond=_field_cond, env=env, post=_text_post)
-    leaves = [lf for lf in eng.run() if lf.kind in ("fall", "return")]      # paths that raise write no card
+    allv = eng.run()
+    leaves = [lf for lf in allv if lf.kind in ("fall", "return")]      # paths that raise write no card
+    crash = [lf for lf in allv if lf.kind == "raise" and isinstance(lf.value, Lit) and not lf.state.facts]
+    if crash and not leaves:
+        raise Crash(f"{q} raises {crash[0].value.s} for this card")
     texts = []
     for lf in leaves:
         out = []
@@ -228,6 +236,9 @@ def run_reader(ctx, q, lines, n, conchar, fixed=True):
     eng = Engine(ctx, BULK, fn, cond=cond, call=call, env=env, post=post)
     leaves = eng.run()
     rets = [lf for lf in leaves if lf.kind == "return"]
+    crash = [lf for lf in leaves if lf.kind == "raise" and isinstance(lf.value, Lit) and not lf.state.facts]
+    if crash and not rets:
+        raise Crash(f"{q} raises {crash[0].value.s} for this card")
     if not rets or any(lf.value != rets[0].value for lf in rets) or any(lf.kind == "fall" for lf in leaves):
         raise Unsupported(f"{q}: {len(leaves)} paths for one card (undecided: {[f[0] for lf in leaves for f in lf.state.facts][:3]})")
     v = rets[0].value
@@ -295,6 +306,8 @@ def shapes(per):
     out.append((f"{3 * per + 1} fields, two blank lines", ["int"] * (per - 1) + ["blank"] * (2 * per + 1) + ["int"]))
     out.append((f"{2 * per} fields, blank run across the line break", ["int"] * (per - 2) + ["blank"] * 4 + ["float"] * (per - 2)))
     out.append((f"{per + 3} fields, blank first line", ["blank"] * per + ["int"] * 3))
+    out.append(("60 integer fields", ["int"] * 60))                               # the longest card of the property's domain
+    out.append(("58 fields of mixed types", mixed(58)))
     return out
 
 
@@ -405,6 +418,9 @@ def r3_card_grid(ctx):
         for desc, shape in shapes(per):
             try:
                 text = run_writer(ctx, q, name, shape, fmt)
+            except Crash as e:
+                ctx.fail(f"{tag}: card of {desc}: the card is written", wfn, str(e))
+                continue
             except Unsupported as e:
                 ctx.error(f"{tag}: card of {desc}: the writer is not modelled", wfn, str(e))
                 continue
@@ -419,6 +435,9 @@ def r3_card_grid(ctx):
             want = trim([BLANK if s == "blank" else s for s in expected_slots(shape)], BLANK)
             try:
                 got, used = run_reader(ctx, "_rdfixed", lines, W, conch[W], True)
+            except Crash as e:
+                ctx.fail(f"_rdfixed reads the {tag} card of {desc} back field for field ({len(lines)} lines)", rfn, str(e))
+                continue
             except Unsupported as e:
                 ctx.error(f"_rdfixed on the {tag} card of {desc}: the reader is not modelled", rfn, str(e))
                 continue
@@ -431,6 +450,8 @@ def r3_card_grid(ctx):
                     ok = trim(got, BLANK) == want
                     ctx.check(ok, f"_rdfixed reads the {tag} card of {desc} alike when its continuation fields are blank", rfn,
                               None if ok else _diff(got, want, used, len(lines)))
+                except Crash as e:
+                    ctx.fail(f"_rdfixed reads the {tag} card of {desc} alike when its continuation fields are blank", rfn, str(e))
                 except Unsupported as e:
                     ctx.error(f"_rdfixed on the {tag} card of {desc} with blank continuation fields: the reader is not modelled", rfn, str(e))
             if fmt == "format_double16":
@@ -444,6 +465,9 @@ def r3_card_grid(ctx):
                 cl = [cat(ln, Lit("\n")) for ln in comma_lines(name.rstrip("*"), shape, lead, short, marker)]
                 try:
                     gotc, usedc = run_reader(ctx, "_rdcomma", cl, None, cch, False)
+                except Crash as e:
+                    ctx.fail(f"_rdcomma reads the comma form ({how}) of the card of {desc} like the fixed form", cfn, str(e))
+                    continue
                 except Unsupported as e:
                     ctx.error(f"_rdcomma on the comma form ({how}) of the card of {desc}: the reader is not modelled", cfn, str(e))
                     continue
